@@ -50,6 +50,11 @@ type ongoingTxKeyReader struct {
 }
 
 func newExpectedReader(spec KeyReaderSpec) *expectedReader {
+	// the spec is replayed at commit time: it must not share memory with the caller's buffers
+	spec.SeekKey = cp(spec.SeekKey)
+	spec.EndKey = cp(spec.EndKey)
+	spec.Prefix = cp(spec.Prefix)
+
 	return &expectedReader{
 		spec:          spec,
 		expectedReads: make([][]expectedRead, 1),
